@@ -217,6 +217,19 @@ _cfgs = st.fixed_dictionaries(
     }
 )
 
+_layout = st.fixed_dictionaries(
+    {
+        "tail": st.builds(lambda ll, u: ll + u, st.sampled_from(["AA", "AA", "zz", "00", "\x01\x10", "~~"]),
+                          st.sampled_from(["https://evil.example/c?", "https://evil.example/", "//evil.example/x", "http://evil.example:80/a#"])),
+        "delta": st.sampled_from([0, 0, 0, 0, -1, 1, -2, 2]),
+    }
+)
+_layout_rt = st.builds(
+    lambda host, n: f"http://{host}/cb/" + "p" * n,
+    st.sampled_from(["localhost:4321", "127.0.0.1:8080", "localhost"]),
+    st.sampled_from([0, 10, 200, 230, 240, 256, 300, 600]),
+)
+
 redirect_cases = st.fixed_dictionaries(
     {
         "cfg": _cfgs,
@@ -226,6 +239,19 @@ redirect_cases = st.fixed_dictionaries(
         "extra_q": st.sampled_from(["", "", "a=1", "a=%5C%40evil.example", "x=//evil.example"]),
         "auth_cookie": st.sampled_from(["none", "none", "opaque", "opaque", "jwt_live", "jwt_expired"]),
         "cred": st.sampled_from(["none", "none", "good"]),  # header credential; "good" lets the request pass _AuthMiddleware
+    }
+)
+
+layout_cases = st.fixed_dictionaries(
+    {
+        "cfg": _cfgs,
+        "flow": st.just("login"),
+        "path": st.just("P/"),
+        "rt": _layout_rt,
+        "extra_q": st.just(""),
+        "auth_cookie": st.just("none"),
+        "cred": st.just("none"),
+        "layout": _layout,
     }
 )
 
@@ -306,8 +332,11 @@ def judge_location(loc: str, base: dict[str, Any], cfg: dict[str, Any]) -> tuple
     """→ (verdict, detail); verdict ∈ safe:* | undecided:* | unsafe:*"""
     if any(ord(ch) > 0xFF for ch in loc):
         return "undecided:non_latin1", ""
-    if any((ord(ch) < 0x20 and ch != "\t") or ord(ch) == 0x7F for ch in loc):
+    if any(ch in "\r\n\x00" for ch in loc):
+        # CR / LF / NUL: servers refuse or split such a header — no browser ever navigates on it
         return "undecided:control_char_in_header", ""
+    # other C0 controls and DEL do travel (waitress, wsgiref send them verbatim) and the URL Standard says what a
+    # browser does with them: stripped at the ends, percent-encoded in path/query, fatal inside a host
     r = W.resolve(loc, base)
     kind = r["kind"]
     if kind == "undecided":
@@ -445,8 +474,19 @@ def run_redirect(case: dict[str, Any]) -> Outcome:
         path = "/" + path
     q = case["extra_q"]
     rt = case["rt"]
+    lay = case.get("layout")
+    if lay:
+        # a request URL with multi-byte characters in the path and URL-shaped text at the very end of its query: the
+        # session cookie carries this text next to the validated return_to, so any byte/character confusion in how the
+        # cookie is packed lets the unvalidated tail stand in for it.  The number of extra UTF-8 bytes in the path is
+        # placed at (and one off) the length of the tail.
+        d = max(0, len(lay["tail"]) + int(lay["delta"]))
+        path = (prefix or "") + "/" + "\U0001f600" * (d // 3) + "\u00e9" * (d % 3)
+        q = "z=" + lay["tail"]
+        out.label("layout_case")
     if rt is not None:
-        q = (q + "&" if q else "") + "_vgi_return_to=" + quote(rt.encode("utf-8", "surrogatepass"), safe="")
+        rtq = "_vgi_return_to=" + quote(rt.encode("utf-8", "surrogatepass"), safe="")
+        q = (rtq + "&" + q if q else rtq) if lay else ((q + "&" if q else "") + rtq)
     headers = {"Accept": "text/html,application/xhtml+xml"}
     tok = {"none": None, "opaque": "cookie-token-verif", "jwt_live": _jwt(2_000_000_000), "jwt_expired": _jwt(1_000_000_000)}[
         case["auth_cookie"]
@@ -645,6 +685,7 @@ def main(chk: Check) -> None:
         raise RuntimeError("WHATWG resolver self-test failed: " + "; ".join(bad[:3]))
     chk.extra["resolver_vectors"] = len(W.VECTORS)
     chk.explore("redirects", redirect_cases, run_redirect, quick=4000, thorough=90000)
+    chk.explore("layout", layout_cases, run_redirect, quick=400, thorough=6000)
     chk.explore("cookies", cookie_cases, run_cookie, quick=1000, thorough=20000)
     # coverage-guided stage (thorough, shard 0 only): libFuzzer mutates the header / URL text, same oracle
     found: list = []
